@@ -27,12 +27,20 @@ def gen_module(seed, tag, idx, profile=None, tries=8):
         if herr:
             rejected.append({"try": t, "why": "backend: " + herr[0][0].message.split("\n")[0], "text": text})
             continue
+        import base64, pickle, zlib
+        # the spec itself travels with every replay: generators evolve, (seed, index) alone would stop reproducing
+        blob = base64.b64encode(zlib.compress(pickle.dumps(m, 4))).decode("ascii")
         return {"m": m, "text": text, "header": hdr, "coords": {"seed": seed, "tag": tag, "idx": idx, "try": t,
-                                                               "profile": profile}, "rejected": rejected, "ir": ir}
+                                                               "profile": profile, "spec": blob},
+                "rejected": rejected, "ir": ir}
     return {"m": None, "rejected": rejected}
 
 
 def regen(coords):
+    if coords.get("spec"):
+        import base64, pickle, zlib
+        m = pickle.loads(zlib.decompress(base64.b64decode(coords["spec"])))
+        return m, embspec.render_module(m)
     rng = common.case_rng(coords["seed"], coords["tag"], coords["idx"] * 100 + coords["try"])
     m = embgen.Gen(rng, coords.get("profile")).gen_module()
     return m, embspec.render_module(m)
